@@ -24,9 +24,13 @@ func init() {
 type schemaPath struct {
 	Root string   // "services", "networks", "volumes", "secrets", "configs", "" (top-level key)
 	Segs []string // below the resource entry; "[]" = list element, "*" = arbitrary key
+	Odd  bool     // the resource entry is named "odd name!": the schema's patternProperties do not constrain it
 }
 
 func (p schemaPath) String() string {
+	if p.Odd {
+		return p.Root + "~odd." + strings.Join(p.Segs, ".")
+	}
 	return p.Root + "." + strings.Join(p.Segs, ".")
 }
 
@@ -119,6 +123,10 @@ func loadSchemaPaths() []schemaPath {
 		for _, rd := range [][2]string{{"services", "service"}, {"networks", "network"}, {"volumes", "volume"}, {"secrets", "secret"}, {"configs", "config"}} {
 			add(rd[0], nil) // the resource entry itself
 			walk(rd[0], defs[rd[1]].(map[string]any), nil, 0, map[string]int{})
+			// the same entry under a name the schema's name pattern does not match
+			odd := schemaPath{Root: rd[0], Odd: true}
+			seen[odd.String()] = true
+			schemaPaths = append(schemaPaths, odd)
 		}
 		for _, top := range []string{"version", "name", "include", "services", "networks", "volumes", "secrets", "configs"} {
 			add("", []string{top})
@@ -216,7 +224,11 @@ func buildConfusion(p schemaPath, node *Y) *Y {
 			res = Map()
 			doc.Set(p.Root, res)
 		}
-		res.Set("target", node)
+		if p.Odd {
+			res.Set("odd name!", node)
+		} else {
+			res.Set("target", node)
+		}
 		return doc
 	}
 	setPath(entry, p.Segs, node)
